@@ -89,7 +89,7 @@ def run(chk):
                 why = "the reported signer is not the verifying entity"
             elif i.endswith("payload-broken"):
                 why = "after a successful verification the payload stream exposed by the loader is no longer readable"
-            if tag in ("byte-corruption", "decoy-members", "no-signature-member"):
+            if tag in ("decoy-members", "no-signature-member"):   # (a corrupted byte may leave the signature packet valid: the oracle decides)
                 why = why or "verification succeeded on a package with %s" % tag
         if why:
             chk.violate({"kind": "property", "case": lib.show_case(("debsig", [b"<%d bytes>" % len(c[0]), c[1], c[2].encode()])), "impl": i, "tag": tag, "explanation": why})
